@@ -11,6 +11,7 @@ import IclModel.Gen.Rules
 import IclModel.Spec.Rules
 import IclModel.TreeWire
 import IclModel.Gen.Cp037
+import IclModel.Gen.Split
 open Icl Icl.Wire
 
 def findRec (n : String) : Option RecLayout := Gen.all.find? (fun L => L.name == n)
@@ -96,6 +97,11 @@ def handle (line : String) : String :=
   | ["readSpec", lp, ebc, frb, now, h] =>
     let m := specModel (frb == "1") (parseDateArg now)
     let (f, e) := readFile m { lp := lp == "1", ebcdic := ebc == "1" } (fromHex h)
+    dumpErr e ++ " # " ++ dumpTree m f
+  | ["readScan", lp, ebc, now, max, sched, h] =>
+    let m := theModel false (parseDateArg now)
+    let sc := if sched == "-" then [] else (sched.splitOn ",").map parseNat
+    let (f, e) := readFileScan m { lp := lp == "1", ebcdic := ebc == "1" } Gen.splitLP (parseNat max) sc (fromHex h)
     dumpErr e ++ " # " ++ dumpTree m f
   | ["ebcenc", h] => match (Charmap.encode { dec := Gen.cp037Dec, repl := Gen.cp037Repl } (fromHex h)) with
     | some b => toHex b
